@@ -267,7 +267,7 @@ def run(ctx):
     phase("proof+harness build (incl. waiting for the shared lake/cargo locks)")
     names = diag_names()
     stats = dict(evaluations=0, distinct=set(), hist={}, diag={}, sites={}, samples=[], oracle_failures=0,
-                 ok=0, errors=0, panics=0, timeouts=0, aborts=0, cli_runs=0, cli_hist={}, min_evals=0, panic_table=[])
+                 ok=0, errors=0, panics=0, timeouts=0, aborts=0, cli_runs=0, cli_hist={}, min_evals=0, panic_table=[], slow_but_finished=0)
     site_inputs = {}      # site (file:line) -> list of (len, text, family)
     pairs = []
 
@@ -303,6 +303,14 @@ def run(ctx):
             os.unlink(gf)
         phase("generate")
         resp = run_sharded(hbin, [l for _, l in reqs], "s")
+        # a `!timeout` on a loaded machine may be a cold start: look at each again, alone, with a 10x limit
+        slow = [i for i, a in enumerate(resp) if a and a.startswith("!timeout")]
+        if slow:
+            again = run_shard(hbin, [reqs[i][1] + " 200" for i in slow], "t", per_req_s=220)
+            for i, a in zip(slow, again):
+                if a and not a.startswith("!timeout"):
+                    resp[i] = a
+                    stats["slow_but_finished"] += 1
         phase("in-process analysis")
         pairs = list(zip(reqs, resp))
 
@@ -361,7 +369,7 @@ def run(ctx):
                 bump(stats["hist"], "answer:timeout")
                 fail("oracle:timeout", dict(kind="oracle", request=line, family=fam,
                                             text_preview=text[:400].decode("utf-8", "replace")),
-                     "front end did not finish within 20 s on a %d-byte text (family %s)" % (len(text), fam))
+                     "front end did not finish within 20 s (nor within 200 s when run alone) on a %d-byte text (family %s)" % (len(text), fam))
             elif cls == "!abort":
                 stats["aborts"] += 1
                 nontrivial = True
@@ -387,7 +395,11 @@ def run(ctx):
         keys_sorted = sorted(groups)
         budget = "150" if ctx.tier == "quick" else "1500"
         starts = [min(groups[k], key=lambda x: x[0]) for k in keys_sorted]
-        mins = run_sharded(hbin, ["min %s %s" % (hexs(st[1]), budget) for st in starts], "m", per_req_s=3000)
+        # inputs of at most 24 bytes (the corpus of earlier minimised crashers) are not minimised again
+        todo = [i for i, st in enumerate(starts) if st[0] > 24]
+        mins = [None] * len(starts)
+        for i, m in zip(todo, run_sharded(hbin, ["min %s %s" % (hexs(starts[i][1]), budget) for i in todo], "m", per_req_s=3000)):
+            mins[i] = m
         phase("minimise")
         minimized = {}
         reported_bases = set()
@@ -508,6 +520,7 @@ def run(ctx):
                     "distinct = distinct texts",
                inputs_ok=stats["ok"], inputs_with_diagnostics=stats["errors"], inputs_panicking=stats["panics"],
                timeouts=stats["timeouts"], aborts=stats["aborts"],
+               answers_over_20s_that_finished_within_200s_when_run_alone=stats["slow_but_finished"],
                panic_sites=site_table, panic_sites_distinct=len(site_table), panic_raw_locations=stats["sites"],
                minimiser_evaluations=stats["min_evals"],
                diagnostic_kinds=diag_sorted, diagnostic_kinds_distinct=len(diag_sorted),
